@@ -46,6 +46,13 @@ impl<'a> StatementEvaluator<'a> {
             Some(Token::Data(_)) => Ok(()),
             Some(Token::Let) => self.evaluate_let_statement(),
             Some(Token::Symbol(symbol)) => self.evaluate_assignment_statement(symbol),
+            // We can land on the ELSE of an `IF ... THEN <statement> ELSE ...` line
+            // when execution resumes in the middle of its THEN clause: a GOSUB
+            // returning, INPUT being answered, CONT after a STOP, or NEXT looping
+            // back to a FOR. The THEN clause is done, so skip the ELSE clause.
+            Some(Token::Else) if self.program().is_after_else_of_then_clause() => {
+                Ok(self.program().discard_remaining_tokens())
+            }
             Some(_) => Err(SyntaxError::UnexpectedToken.into()),
             None => Ok(()),
         }
